@@ -583,18 +583,21 @@ class TaskDispatcher(object):
             # is_ready indicates if node.generator can be invoked again
             task_name = node.task.name
 
-            # node wait_run will be ready if there are nothing left to wait
-            if task_name in waiting_node.wait_run:
+            in_wait_run = task_name in waiting_node.wait_run
+            if in_wait_run:
                 waiting_node.wait_run.remove(task_name)
-                is_ready = not (waiting_node.wait_run or waiting_node.wait_run_calc)
             # node wait_run_calc
-            else:
-                assert task_name in waiting_node.wait_run_calc
+            # (a task might be both a task_dep and a calc_dep of another one)
+            if task_name in waiting_node.wait_run_calc:
                 waiting_node.wait_run_calc.remove(task_name)
                 # calc_dep might add new deps that can be run without
                 # waiting for the completion of the remaining deps
                 is_ready = True
                 self._process_calc_dep_results(node, waiting_node)
+            # node wait_run will be ready if there are nothing left to wait
+            else:
+                assert in_wait_run
+                is_ready = not (waiting_node.wait_run or waiting_node.wait_run_calc)
 
 
             # this node can be further processed
